@@ -78,13 +78,28 @@ class _Sock:
         self.opts.append(a)
 
 
+class Livelock(BaseException):
+    """The scanner opened more connections than any terminating scan of this size needs (a reconnect loop in which
+    no virtual time passes would otherwise never return).  BaseException: not swallowed by `except Exception`."""
+
+
 class DiscGateway:
-    def __init__(self, model: dict[str, Any], mutant: str | None = None) -> None:
+    def __init__(self, model: dict[str, Any], mutant: str | None = None, max_conns: int = 2000) -> None:
         self.m = model
+        self.max_conns = max_conns
         self.mutant = mutant
         self.ev: list[dict[str, Any]] = []
         self.listener = Listener()
         self.listener.on_accept = self._accepted
+        _open = self.listener.open
+
+        async def guarded_open(*a: Any, **kw: Any) -> Any:
+            if self.nconn >= self.max_conns:
+                self.add("Livelock")
+                raise Livelock()
+            return await _open(*a, **kw)
+
+        self.listener.open = guarded_open  # type: ignore[method-assign]
         self.nconn = 0
         self.nreq = 0
         self.beh = {int(k): v for k, v in model.get("beh", {}).items()}
@@ -269,7 +284,7 @@ def parse_uri(line: str) -> dict[str, Any]:
 
     try:
         t = TargetURI(line.strip())
-        if t.scheme.value != "doip" if hasattr(t.scheme, "value") else str(t.scheme) != "doip":
+        if str(getattr(t.scheme, "value", t.scheme)) != "doip":
             raise ValueError("scheme")
         host = t.hostname
         port = t.port
@@ -319,7 +334,9 @@ def run_scan(model: dict[str, Any], scan: dict[str, Any], *, mutant: str | None 
             out["udp_stubbed"] = True
 
     async def main() -> None:
-        gw = DiscGateway(model, mutant)
+        nrat = 1 if scan.get("rat") is not None else 256
+        nsrc = 1 if scan.get("src") is not None else 65536
+        gw = DiscGateway(model, mutant, max_conns=200 + 2 * (nrat + nsrc) + nrat * (1 if nsrc == 1 else 8) + 4 * (nsrc if nrat == 1 else 0))
         gw_box["gw"] = gw
         cfg = DoIPDiscovererConfig(target=target, start=scan["start"], stop=scan["stop"],
                                    tcp_connect_delay=float(scan.get("delay", 0.0)))
@@ -330,10 +347,17 @@ def run_scan(model: dict[str, Any], scan: dict[str, Any], *, mutant: str | None 
             try:
                 await sc.main()
                 out["done"] = "ok"
-            except SystemExit as e:
-                out["done"] = f"exit{e.code}"
+            except SystemExit as e:     # the scanner ended the run itself
+                out["done"] = "ok" if e.code in (0, None) else "stopped"
+                out["exit_code"] = e.code
             except asyncio.CancelledError:
-                raise
+                t = asyncio.current_task()
+                if t is not None and t.cancelling() > 0:   # the horizon of vloop.run: a hang
+                    raise
+                out["done"] = "exc"                       # the scanner let a CancelledError of its own escape
+                out["exc"] = "CancelledError()"
+            except Livelock:
+                out["done"] = "hang"
             except BaseException as e:  # noqa: BLE001
                 out["done"] = "exc"
                 out["exc"] = repr(e)[:200]
@@ -361,6 +385,6 @@ def run_scan(model: dict[str, Any], scan: dict[str, Any], *, mutant: str | None 
                          "src": -1 if scan.get("src") is None else scan["src"], "start": scan["start"],
                          "stop": scan["stop"]},
                 "model": model, "ev": gw.ev if gw else [], "rep": rep, "errs": errs, "done": out["done"],
-                "exc": out.get("exc", ""), "raw": files, "vers": sorted(gw.vers) if gw else [], "dbruns": list(db.runs), "t_end": out.get("t_end", -1)}
+                "exc": out.get("exc", ""), "exit_code": out.get("exit_code"), "raw": files, "vers": sorted(gw.vers) if gw else [], "dbruns": list(db.runs), "t_end": out.get("t_end", -1)}
     finally:
         shutil.rmtree(tmp, ignore_errors=True)
